@@ -112,7 +112,33 @@ extern "C" { fn rbpf_harness_h3_probe(a: u64, b: u64, c: u64, d: u64, e: u64) ->
 pub static mut ALIGN_SLOT: u64 = 0xff;
 fn h3_probe_ptr() -> rbpf::ebpf::Helper { unsafe { std::mem::transmute(rbpf_harness_h3_probe as unsafe extern "C" fn(u64, u64, u64, u64, u64) -> u64) } }
 
-fn helper_fn(i: usize) -> rbpf::ebpf::Helper { if i % 4 == 3 { h3_probe_ptr() } else { HELPERS[i % 4] } }
+fn helper_direct(i: usize) -> rbpf::ebpf::Helper { if i % 4 == 3 { h3_probe_ptr() } else { HELPERS[i % 4] } }
+
+/// helper functions at low addresses: selectors 4..7 reach function i % 4 through a trampoline (`movabs rax, f; jmp rax`) mapped at
+/// 0x9000_0000 (between 2 and 4 GiB: an address that fits 32 bits unsigned but not signed), selectors 8..11 through one at 0xffff_e000
+/// (just under 4 GiB).  rax carries no argument and rsp is untouched, so the callee sees exactly the call the program made.  If the
+/// pages cannot be mapped the direct function is used (the address actually used is echoed to the model either way).
+fn helper_fn(i: usize) -> rbpf::ebpf::Helper {
+    static TRAMP: std::sync::OnceLock<[usize; 8]> = std::sync::OnceLock::new();
+    if i % 12 < 4 { return helper_direct(i); }
+    let t = TRAMP.get_or_init(|| {
+        let mut out = [0usize; 8];
+        for (b, base) in [0x9000_0000usize, 0xffff_e000].iter().enumerate() {
+            let p = unsafe { libc::mmap(*base as *mut libc::c_void, 4096, libc::PROT_READ | libc::PROT_WRITE | libc::PROT_EXEC,
+                libc::MAP_PRIVATE | libc::MAP_ANONYMOUS | libc::MAP_FIXED_NOREPLACE, -1, 0) };
+            if p == libc::MAP_FAILED || p as usize != *base { continue; }
+            for k in 0..4usize {
+                let target = helper_direct(k) as usize as u64;
+                let mut code = vec![0x48u8, 0xb8]; code.extend_from_slice(&target.to_le_bytes()); code.extend_from_slice(&[0xff, 0xe0]);
+                unsafe { std::ptr::copy_nonoverlapping(code.as_ptr(), (*base + 16 * k) as *mut u8, code.len()); }
+                out[4 * b + k] = *base + 16 * k;
+            }
+        }
+        out
+    });
+    let a = t[(i % 12) - 4];
+    if a == 0 { helper_direct(i) } else { unsafe { std::mem::transmute::<usize, rbpf::ebpf::Helper>(a) } }
+}
 
 fn log_digest() -> (usize, u64) {
     let log_bytes: Vec<u8> = HLOG.with(|l| l.borrow().iter().flat_map(|(n, a)| {
@@ -334,6 +360,7 @@ pub fn run(t: &[&str]) -> String {
     format!("{}{} @ membase={:x} mbuffbase={:x} extrabase={} stackbase={:x} fixedbase={:x} hfn={:x},{:x},{:x},{:x}", out, eng, membase, mbuffbase,
         if extrabase.is_empty() { "-".to_string() } else { extrabase.iter().map(|x| format!("{:x}", x)).collect::<Vec<_>>().join(",") }, stackbase, fixedbase,
         helper_fn(0) as usize, helper_fn(1) as usize, helper_fn(2) as usize, helper_fn(3) as usize)
+        + &(4..12).map(|k| format!(",{:x}", helper_fn(k) as usize)).collect::<String>()
 }
 
 // ------------------------------------------------------------------------------------------------
@@ -586,6 +613,41 @@ pub fn gen_long(w: &mut impl Write, thorough: bool, seed: u64) {
 /// calculators (absent, constant, per-entry table).
 pub fn gen_calls(w: &mut impl Write, thorough: bool, seed: u64) {
     let mut r = Rng::new(seed ^ 0xca11);
+    // call sites beyond instruction 65535 (return addresses that do not fit 16 bits) and callees more than 32768 instructions away:
+    //   [0] ja -> S   [1..] trap area: (mov r0,0xbad; exit) pairs, then filler   [S] call f; add r0,1; exit   f: mov r0,41; exit
+    //   and the far-callee form: [0] mov r0,1; [1] call +D; [2] add r0,2; [3] exit; filler …; [2+D] add r0,40; exit
+    for &site in &[65_534usize, 65_535, 65_536, 70_001] {
+        let mut s: Vec<[u8; 8]> = vec![ins(0x05, 0, 0, 0, 0)];
+        while s.len() + 1 < 200 { s.push(ins(0xb7, 0, 0, 0, 0xbad)); s.push(EXIT); }
+        while s.len() < site { s.push(ins(0xb7, 0, 0, 0, 0x5a5)); }
+        s.push(ins(0x85, 0, 1, 0, 2)); s.push(ins(0x07, 0, 0, 0, 1)); s.push(EXIT); s.push(ins(0xb7, 0, 0, 0, 41)); s.push(EXIT);
+        s[0] = ins(0x05, 0, 0, 0, 0); let p0: Vec<u8> = { let mut v = s.clone(); v[0] = ins(0x05, 0, 0, 0, 0); v.iter().flatten().copied().collect() }; let _ = p0;
+        // `ja` reaches at most +32767: chain two jumps through a relay in the filler
+        let relay = 32_000usize; s[relay] = ins(0x05, 0, 0, 0, 0);
+        let mut q = s.clone();
+        q[0] = ins(0x05, 0, 0, (relay - 1) as i16, 0);
+        // second hop: from relay to another relay or to the site
+        let mut at = relay; let mut hops = vec![];
+        while site - at - 1 > 32_767 { let nxt = at + 32_000; hops.push((at, nxt)); at = nxt; }
+        hops.push((at, site));
+        for (from, to) in hops { q[from] = ins(0x05, 0, 0, (to - from - 1) as i16, 0); }
+        writeln!(w, "exec tag=calls prog={} calc=- budget=200", hex(&q.iter().flatten().copied().collect::<Vec<u8>>())).unwrap();
+    }
+    for &d in &[32_768i32, 40_000, 65_536] {
+        let mut s: Vec<[u8; 8]> = vec![ins(0xb7, 0, 0, 0, 1), ins(0x85, 0, 1, 0, d), ins(0x07, 0, 0, 0, 2), EXIT];
+        while s.len() < (2 + d) as usize { s.push(ins(0xb7, 0, 0, 0, 0x5a5)); }
+        s.push(ins(0x07, 0, 0, 0, 40)); s.push(EXIT);
+        writeln!(w, "exec tag=calls prog={} calc=- budget=200", hex(&s.iter().flatten().copied().collect::<Vec<u8>>())).unwrap();
+        // and the backward form: the callee first, the caller far behind it
+        let mut s: Vec<[u8; 8]> = vec![ins(0x05, 0, 0, 0, 0), ins(0x07, 0, 0, 0, 40), EXIT];
+        let caller = (2 + d) as usize;
+        while s.len() < caller { s.push(ins(0xb7, 0, 0, 0, 0x5a5)); }
+        s.push(ins(0xb7, 0, 0, 0, 1)); s.push(ins(0x85, 0, 1, 0, 1 - (caller as i32 + 2))); s.push(ins(0x07, 0, 0, 0, 2)); s.push(EXIT);
+        // reach the caller by relays of at most 32767
+        let mut at = 0usize; while caller - at - 1 > 32_767 { let nxt = at + 32_000; s[at] = ins(0x05, 0, 0, (nxt - at - 1) as i16, 0); at = nxt; }
+        s[at] = ins(0x05, 0, 0, (caller - at - 1) as i16, 0);
+        writeln!(w, "exec tag=calls prog={} calc=- budget=200", hex(&s.iter().flatten().copied().collect::<Vec<u8>>())).unwrap();
+    }
     // callee and call site at the edges of the program: a one-instruction function (`exit`) that is the LAST instruction, one that is
     // the second instruction (after `ja main`), a two-instruction function ending the program, the call as first / penultimate
     // instruction, calls from a callee to the last instruction; k extra dead instructions after the callee move it off the edge
@@ -936,7 +998,9 @@ pub fn gen_engines(w: &mut impl Write, thorough: bool, seed: u64) {
         if depth > 0 { let d = starts[0] as i64 - (main_call as i64 + 1); s[main_call][4..8].copy_from_slice(&(d as i32).to_le_bytes()); }
         for k in 1..depth { let at = starts[k - 1] + 1; let d = starts[k] as i64 - (at as i64 + 1); s[at][4..8].copy_from_slice(&(d as i32).to_le_bytes()); }
         let p: Vec<u8> = s.iter().flatten().copied().collect();
-        let helpers = if reg_ok { format!("{:x}:3", id) } else { format!("{:x}:3", id ^ 1) };
+        // the helper reached directly, or through a trampoline at a low address (selectors 7 and 11: function 3 at 0x9000_0030 / 0xffff_e030)
+        let sel = [3usize, 7, 11][(depth + (id as usize % 3)) % 3];
+        let helpers = if reg_ok { format!("{:x}:{}", id, sel) } else { format!("{:x}:{}", id ^ 1, sel) };
         writeln!(w, "exec tag=helpers prog={} mem={} helpers={} budget=300 engines=jit,clif kind=raw", hex(&p), hex(&pattern(16, 3)), helpers).unwrap();
     } } }
     // (5) div/mod far into a long program (instruction index beyond 2^16) and at index 65535
